@@ -331,7 +331,10 @@ CHECKS = {
        "preemption; pairs within a window in the thorough tier) of small race scenarios; monitor: overlap of live "
        "invocations, recomputation after a retained success (loops are not resumed in this check, as the property "
        "says)",
-  note=NOTE_COMMON + "Holds only after fix 90a667a (F2). The clause 'every later caller receives that one result' is "
+  note=NOTE_COMMON + "Known finding (known_findings.json, F46): with a lock-protected caller-supplied mapping, an abandoned "
+       "computing call finalized by the garbage collector inside the mapping dead-locks the cache against the mapping's own "
+       "lock - reproduced by scenario C01_gc_inside_locked_mapping.py on every run and printed as KNOWN-FINDING. "
+       "Holds only after fix 90a667a (F2). The clause 'every later caller receives that one result' is "
        "covered by C06_outcome + the monitor; uniqueness of the result under a retaining mapping is not a separate "
        "theorem.",
   tech="Lean 4 proof (inductive invariant over a labelled transition system with loop life-cycle, all "
